@@ -257,6 +257,7 @@ def EW.new (dev : Dev) (guid libVersion : String) : Outcome EW := do
 def EW.registerExtension (e : EW) (ns url : String) : Outcome EW :=
   if !validName ns then .err "invalid extension namespace"
   else if e.exts.any (fun x => x.1 == ns) then .err "namespace already registered"
+  else if url.isEmpty || url == "http://www.astm.org/COMMIT/E57/2010-e57-v1.0" || e.exts.any (fun x => x.2 == url) then .err "URL already used by another namespace"
   else .ok { e with exts := e.exts ++ [(ns, url)] }
 
 def EW.addBlob (e : EW) (data : Bytes) : Outcome (EW × BlobRef) := do
@@ -274,10 +275,15 @@ def EW.finalize (ft : FloatText) (e : EW) (transform : String → Option String)
       let xmlBytes := utf8 xml
       let xmlOffset := e.pw.physicalPosition
       let pw ← e.pw.writeAll xmlBytes
+      let pw ← pw.align
+      let endOff := pw.physicalPosition
       let (pw, physLength) := pw.physicalSize
       let (pw, ok) := pw.physicalSeek 0
       if !ok then .err "seek to header failed" else
       let pw ← pw.writeAll (fileHeaderBytes physLength xmlOffset xmlBytes.length)
+      -- back behind the XML: whatever is written after finalize is appended
+      let (pw, ok) := pw.physicalSeek endOff
+      if !ok then .err "seek behind the XML failed" else
       pure { e with pw := pw.flush }
 
 end E57
